@@ -150,6 +150,19 @@ def configs(tier):
             for v in (0, 2):
                 out.append({'k': 3, 'scripts': sc, 'N': N, 'v': v, 'cap': 64, 'bound': b3,
                             'id': 'x3t%d' % ti, 'x': True})
+    # children whose report is cut short / missing, under every interleaving
+    # (C07's fault alphabet runs with inline threads; here the schedules vary)
+    CUT = [('err', b'2 1 1\n'), ('err', b'failB (m.T.failB)\n')]
+    NONE = [('err', b'some text but no report\n')]
+    fpairs = [
+        {'La': script(b'La', CUT), 'Lb': script(b'Lb', REPORT_B, dots=False)},
+        {'La': script(b'La', REPORT_C, tail=True), 'Lb': script(b'Lb', NONE)},
+        {'La': script(b'La', []), 'Lb': script(b'Lb', CUT, dots=False)},
+    ]
+    for pi, sc in enumerate(fpairs):
+        for N in (1, 2):
+            for v in (0, 2):
+                out.append({'k': 2, 'scripts': sc, 'N': N, 'v': v, 'cap': 64, 'bound': b2, 'id': 'f2p%d' % pi})
     return out
 
 
@@ -259,7 +272,20 @@ def reference(cfg, only=None):
                     blk += ln
         out += blk
         blocks.append(blk)
-        r, nf, ne = map(int, rep[0].split())
+        while rep:
+            try:
+                r, nf, ne = map(int, rep[0].split())
+                break
+            except ValueError:
+                rep = rep[1:]     # text in front of the report
+        if not rep:
+            # a child that sent no report at all
+            errs['subprocess for %s' % layer] += 1
+            continue
+        if len(rep) - 1 < nf + ne:
+            # a report cut short: one error for the layer, nothing else
+            errs['subprocess for %s' % layer] += 1
+            continue
         ran += r
         for x in rep[1:1 + nf]:
             fails[x.decode()] += 1
@@ -354,7 +380,8 @@ def explore(cfg, collect):
             return True
         rep = b''.join(a for op, a in sc if op == 'err').splitlines()
         return sum(map(int, rep[0].split()[1:])) > 0
-    first_bad = min([i for i, n in enumerate(layer_names) if _bad(cfg['scripts'][n])] or [len(layer_names) - 1])
+    first_bad = (min([i for i, n in enumerate(layer_names) if _bad(cfg['scripts'][n])] or [len(layer_names) - 1])
+                 if xmode else None)
     visited = {}
     transitions = set()
     stack = [[]]
